@@ -7,7 +7,7 @@ import warnings
 import core
 from props import answers, rel
 
-THEOREMS = ["InfOCF.C11_W_backend_free", "InfOCF.C11_Lex_backend_free", "InfOCF.C11_loop_meets_contract", "InfOCF.enumLoop_spec", "InfOCF.minimal_of_enum",
+THEOREMS = ["InfOCF.C11_W_backend_free", "InfOCF.C11_Lex_backend_free", "InfOCF.C11_loop_meets_contract", "InfOCF.C03_z3enum", "InfOCF.enumLoop_spec", "InfOCF.minimal_of_enum",
             "InfOCF.C03_main", "InfOCF.C04_main", "InfOCF.C07_W", "InfOCF.C07_Lex"]
 RULE = ("small random and tie-rich bases (both modes) x 6 queries, and shipped random_large bases (time-capped), each asked under every "
         "usable back-end: z3, rc2 and rc2-<engine> for every SAT engine that pysat can instantiate here (measured at run time); "
